@@ -281,7 +281,19 @@ def stepEncBL (which : String) (lcells : List (Cell G × String × String)) (imp
   | some cs =>
     let m := if which = "cells" then hexOfRunes (VaxisModel.Model.SgrLinks.encodeCellsBL false cs)
              else if which = "ss" then hexOfRunes (VaxisModel.Model.SgrLinks.ssEncodeBL false cs) else "bad-op"
-    s!"{m}\t{impl}\t{if impl = "panic" then "FAIL panic" else "ok"}"
+    -- oracle on the implementation's string: no hyperlink is left open at its end (the last OSC 8, if any, closes)
+    let closed : Bool :=
+      match runesOfHex? impl with
+      | some rs =>
+        let rec lastOsc8 : List Nat → Option (List Nat) → Option (List Nat)
+          | [], acc => acc
+          | 0x1B :: 0x5D :: 0x38 :: 0x3B :: r, _ => lastOsc8 r (some (r.takeWhile (· ≠ 0x1B)))
+          | _ :: r, acc => lastOsc8 r acc
+        match lastOsc8 rs none with
+        | none => true
+        | some p => p == [0x3B]
+      | none => true
+    s!"{m}\t{impl}\t{if impl = "panic" then "FAIL panic" else if closed then "ok" else "FAIL a hyperlink is left open at the end of the encoded string"}"
 
 def step (line : String) : String :=
   let (op, impl) := splitTab line
